@@ -114,7 +114,20 @@ fn is_crlf_free(bytes: &[u8]) -> bool {
 fn is_tchar(b: u8) -> bool {
     matches!(
         b,
-        b'!' | b'#' | b'$' | b'%' | b'&' | b'\'' | b'*' | b'+' | b'-' | b'.' | b'^' | b'_' | b'`' | b'|' | b'~'
+        b'!' | b'#'
+            | b'$'
+            | b'%'
+            | b'&'
+            | b'\''
+            | b'*'
+            | b'+'
+            | b'-'
+            | b'.'
+            | b'^'
+            | b'_'
+            | b'`'
+            | b'|'
+            | b'~'
     ) || b.is_ascii_alphanumeric()
 }
 
